@@ -12,7 +12,9 @@ import (
 	"time"
 
 	rhp3 "go.sia.tech/core/rhp/v3"
+	proto4 "go.sia.tech/core/rhp/v4"
 	"go.sia.tech/core/types"
+	rhp4 "go.sia.tech/coreutils/rhp/v4"
 	"go.sia.tech/hostd/v2/host/accounts"
 	"go.sia.tech/hostd/v2/host/contracts"
 	"go.sia.tech/hostd/v2/persist/sqlite"
@@ -111,11 +113,69 @@ func TestVerifC04Race(t *testing.T) {
 			}(w)
 		}
 		wg.Wait()
+
+		// second phase, RHP4: concurrent deposits into and withdrawals from store-level accounts
+		// (distinct keys from the RHP3 phase).  Every accepted call is one atomic step: the final
+		// balance is deposits minus accepted withdrawals, never negative, whatever the schedule.
+		const nAcct4 = 2
+		v2ID := types.FileContractID{0xC2, 1}
+		if err := db.AddV2Contract(contracts.V2Contract{ID: v2ID, V2FileContract: types.V2FileContract{ProofHeight: 100, ExpirationHeight: 200}}, rhp4.TransactionSet{}); err != nil {
+			t.Fatal(err)
+		}
+		dep4 := make([]*big.Int, nAcct4)
+		wd4 := make([]*big.Int, nAcct4)
+		for i := range dep4 {
+			dep4[i], wd4[i] = new(big.Int), new(big.Int)
+		}
+		for w := 0; w < nWorkers; w++ {
+			wg.Add(1)
+			go func(w int) {
+				defer wg.Done()
+				defer func() {
+					if r := recover(); r != nil {
+						panics <- fmt.Sprint(r)
+					}
+				}()
+				rng := verifCaseRand(round*1000 + 500 + w)
+				for i := 0; i < opsPerWorker; i++ {
+					a := rng.Intn(nAcct4)
+					acct := proto4.Account(c04Key(100 + a))
+					if rng.Intn(4) == 0 {
+						amt := types.NewCurrency64(uint64(1 + rng.Intn(20)))
+						if _, err := db.RHP4CreditAccounts([]proto4.AccountDeposit{{Account: acct, Amount: amt}}, v2ID,
+							types.V2FileContract{RevisionNumber: 1, ProofHeight: 100, ExpirationHeight: 200}, proto4.Usage{AccountFunding: amt}); err == nil {
+							mu.Lock()
+							dep4[a].Add(dep4[a], amt.Big())
+							mu.Unlock()
+						}
+					} else {
+						amt := types.NewCurrency64(uint64(1 + rng.Intn(6)))
+						if err := db.RHP4DebitAccount(acct, proto4.Usage{Egress: amt}); err == nil {
+							mu.Lock()
+							wd4[a].Add(wd4[a], amt.Big())
+							mu.Unlock()
+						}
+					}
+				}
+			}(w)
+		}
+		wg.Wait()
 		close(panics)
 		for p := range panics {
 			em.Monitor("concurrent-ledger-op-panics", p)
 		}
 		sum := new(big.Int)
+		for a := 0; a < nAcct4; a++ {
+			sb, err := db.RHP4AccountBalance(proto4.Account(c04Key(100 + a)))
+			if err != nil {
+				t.Fatal(err)
+			}
+			want := new(big.Int).Sub(dep4[a], wd4[a])
+			if want.Sign() < 0 || sb.Big().Cmp(want) != 0 {
+				em.Monitor("concurrent-balance-differs-from-deposits-minus-withdrawals", fmt.Sprintf("rhp4 account %d: balance %v, deposits %v, accepted withdrawals %v", a, sb, dep4[a], wd4[a]))
+			}
+			sum.Add(sum, sb.Big())
+		}
 		for a := 0; a < nAcct; a++ {
 			sb, err := db.AccountBalance(rhp3.Account(c04Key(a)))
 			if err != nil {
